@@ -60,6 +60,11 @@ INFO = {
     "C09-3": ("sticky _max_capacity_reached flag in UnboundedSPSCQueue::_handle_full_queue, not reset by shrink()", "an oversized statement refused while the node is small, or growth to the maximum followed by shrink(); afterwards a statement larger than the current node is refused for ever"),
     "C14-3": ("recovery scan wrapped in one try/catch, per-entry stoul guards removed", "append mode, Index naming, a sibling <stem>.<non-number><ext> (or a stem with a dot) met before a rotated file in directory order: recovery stops, the next rotation clobbers unrecovered files"),
     "C20-3": ("idle pass passes 'all queues empty' into the reclaim scan, which then skips the per-context check for the first removal", "a known thread logs once more and exits between the backend's idle emptiness check and the reclaim scan (yield point Y5)"),
+    "C01-3": ("prepare_write() calls commit_write() before returning nullptr when the record still does not fit", "a record finished but not yet committed, then a failing reservation on a really full queue: the uncommitted record becomes visible"),
+    "C02-3": ("_handle_full_queue publishes next before commit_write() on the old buffer (allocation moved first)", "consumer runs between the producer's next.store and its late commit: it retires the old node, the commit then touches the deleted node (batched commits: records lost)"),
+    "C11-3": ("FrontendImpl<T>::preallocate() fetches the thread context of the DEFAULT FrontendOptions", "a user-defined FrontendOptions type and preallocate() before the first statement: the first log call builds the real context (allocates) on the caller"),
+    "C13-3": ("PatternFormatterOptions::operator== ignores timestamp_timezone", "two loggers differing only in GmtTime/LocalTime, %(time) in the pattern, a local zone different from UTC"),
+    "C15-3": ("initial rotation point of hourly/minutely rotation computed on the UTC grid (gmtime/timegm) for every zone", "hourly rotation, Timezone::LocalTime, a zone whose UTC offset is not a whole number of hours"),
     "C17-2": ("SinkManager::_insert_sink uses upper_bound", "a sink expires without a logger removal, the same sink name is created again and looked up before any logger is removed"),
 }
 for name, (change, needs) in INFO.items():
